@@ -1436,7 +1436,7 @@ class AnsiString:
             obj = obj[:idx] + replace + obj[idx+len(old):]
             if count > 0:
                 count -= 1
-            idx = obj._s.find(old, idx + len(new) + (0 if old else 1))
+            idx = obj._s.find(old, idx + len(replace) + (0 if old else 1))
 
         if inplace:
             self._s = obj._s
